@@ -43,6 +43,9 @@ class LibLoops:
             inner, start = itv.z
             itv, k = inner, inner.t[0]
             inner_expr = node.iter.args[0] if isinstance(node.iter, ast.Call) and node.iter.args else None
+        if k == "dict":
+            itv = Val(("dictview",), ("keys", itv))
+            k = "dictview"
         idxn, seqn, donen = spec.idx, spec.seq, spec.done
         mutation_check = None
         live_expr = None
